@@ -786,14 +786,12 @@ func TestC19HttpE2E(t *testing.T) {
 	}
 	idx++
 
-	// What Write says when the far end did NOT take the envelope. httpReadWriter.Write looks at the transport
-	// error of the POST only, never at the status of the answer: (a) the far end answers 503 because the
-	// connection the request was parked on is removed by the idle cleaner before anybody read it; (b) the far
-	// end answers 400 because it cannot map the envelope's source. In both the well-formed envelope is gone for
-	// good and the sender is told nothing (Write = nil). The property's "written on one end is read on the
-	// other" has no room for that; the model makes the far end the environment of a Write (HPostResult), so it
-	// says nothing either way. Recorded as finding http-write-ignores-status (not repaired in /repo for now:
-	// see docs/notes-tr.md).
+	// What Write says when the far end did NOT take the envelope (regression of the defect http-write-ignores-status,
+	// fixed in /repo 2aacfa6: Write looked at the transport error of the POST only, never at the status of the
+	// answer): (a) the far end answers 503 because the connection the request was parked on is removed by the idle
+	// cleaner before anybody read it; (b) the far end answers 400 because it cannot map the envelope's source. In
+	// both the envelope is not delivered, and Write must say so: a nil from Write means "answered 200", and a
+	// request is answered 200 only once its envelope has been handed to a Read.
 	for _, variant := range []string{"503-removed-while-parked", "400-unmappable-source"} {
 		if want(idx) {
 			em.Marker("begin", idx)
@@ -822,7 +820,7 @@ func TestC19HttpE2E(t *testing.T) {
 			}
 			em.Emit(Rec{Idx: idx, Kind: "http-write-refused", Desc: map[string]any{"variant": variant, "what": "the far end answers " + variant[:3] + " and does not deliver; nobody ever reads the envelope"},
 				Obs: map[string]any{"write_err": fmt.Sprint(werr)},
-				Coq: fmt.Sprintf("CAssert 3 %s", coqBool(werr != nil)), Tags: []string{"http:write-refused", "sig:http-write-ignores-status"}})
+				Coq: fmt.Sprintf("CAssert 3 %s", coqBool(werr != nil)), Tags: []string{"http:write-refused"}})
 			em.Marker("end", idx)
 			gohD.Cancel()
 			srvD.CloseClientConnections()
